@@ -259,4 +259,14 @@ theorem C01_written_core_evaluates_to_den (e : PE N) (hc : isCore e = true) (hw 
   rw [node_coreOf e hc]
   exact C01_core_conformance _ _ d
 
+/-- **Every expression, however it is written**: if the bytes compile to the AST of a core term `c`
+    — the image of `toNode`: identifiers, sub-expressions, indices, literals, raw strings, `@`, pipes,
+    multi-select lists and hashes — then `Search` returns exactly the value the specification assigns
+    to `c`, on every document and without error.  (Which AST a given spelling compiles to is the
+    subject of C03 and C04; this statement needs no assumption on the spelling.) -/
+theorem C01_compiled_core_evaluates_to_den (s : Bytes) (c : Core N) (h : Api.compile Model.cfg s = .ok (toNode c)) (d : Val N) :
+    Api.search Model.cfg s d = .ok (den c d) := by
+  simp only [Api.search, h]
+  exact C01_core_conformance _ c d
+
 end Jmes.Props
